@@ -50,12 +50,12 @@ Print Assumptions C08_mem.
    backwards forever, and a length varint of 2^64-1 inside a DBI *)
 Example C08_example_hang_blob :
   custom_decode [26;11; 122;245;255;255;255;255;255;255;255;255;1] = Err EMalformed
-  /\ steps [26;11; 122;245;255;255;255;255;255;255;255;255;1] = 3.
+  /\ steps [26;11; 122;245;255;255;255;255;255;255;255;255;1] = 2.
 Proof. vm_compute. split; reflexivity. Qed.
 Example C08_example_panic_blob :
   custom_decode [26;13; 18;11; 10;255;255;255;255;255;255;255;255;255;1] = Err EMalformed.
 Proof. vm_compute. reflexivity. Qed.
 Example C08_example_ok_blob :
-  exists s, custom_decode [8;3; 26;7; 10;1;100; 18;2; 10;0] = Ok s /\ length (s_dbis s) = 1%nat
-            /\ steps [8;3; 26;7; 10;1;100; 18;2; 10;0] = 10.
+  exists s, custom_decode [8;3; 26;8; 10;1;100; 18;3; 10;1;107] = Ok s /\ length (s_dbis s) = 1%nat
+            /\ steps [8;3; 26;8; 10;1;100; 18;3; 10;1;107] = 12.
 Proof. vm_compute. eexists. repeat split. Qed.
